@@ -49,7 +49,13 @@ def caller_of(bits):
     return dict(authenticated=authenticated, active=active, developer=developer, is_auth=is_auth)
 
 
+# names an ordinary (non-service) account may have that a sloppy comparison with 'auth' could confuse
+LOOKALIKE_USERNAMES = ['a', 'au', 'th', 'aut', 'uth', 'auth2', 'xauth', 'AUTH', 'Auth', 'auth ', ' auth', 'auth\n', 'authx', '']
+
+
 def username_of(c):
+    if c.get('username') is not None:
+        return c['username']
     return 'auth' if c['is_auth'] else 'alice'
 
 
@@ -57,7 +63,10 @@ def session_id_of(c):
     if not c['authenticated']:
         # two unauthenticated flavours: an unknown bearer token for developer=1, nothing at all for developer=0
         return 'bogus-session' if c['developer'] else None
-    return 'sid-%d%d%d' % (c['active'], c['developer'], c['is_auth'])
+    sid = 'sid-%d%d%d' % (c['active'], c['developer'], c['is_auth'])
+    if c.get('username') is not None:
+        sid += '-u%d' % LOOKALIKE_USERNAMES.index(c['username'])
+    return sid
 
 
 def userdata_of(c):
@@ -79,6 +88,10 @@ class FakeAuthClient:
             c = caller_of(bits)
             if c['authenticated']:
                 self.sessions[session_id_of(c)] = userdata_of(c)
+                if not c['is_auth']:
+                    for u in LOOKALIKE_USERNAMES:
+                        cu = dict(c, username=u)
+                        self.sessions[session_id_of(cu)] = userdata_of(cu)
 
     async def get_read_json(self, url, headers=None, **kw):
         tok = (headers or {}).get('Authorization', '')
@@ -481,6 +494,7 @@ async def mode_run(req):
     explore = bool(req.get('explore'))
     depth = int(req.get('depth', 3))
     callers = req.get('callers')
+    usernames = LOOKALIKE_USERNAMES if req.get('lookalikes') else None
     out = []
     for method, path, handler, name in registered():
         if want is not None and (method, path) not in want:
@@ -493,18 +507,27 @@ async def mode_run(req):
             for ctx in ALL_CTX:
                 if callers is not None and [list(bits), list(ctx)] not in callers:
                     continue
-                caller = caller_of(bits)
-                for bi, body in enumerate(bodies_for(path)):
-                    queue = [[]]
-                    seen = 0
-                    while queue and seen < 2 ** depth:
-                        answers = queue.pop(0)
-                        seen += 1
-                        r = await run_one(handler, method, path, caller, ctx, answers, body)
-                        cases.append({'caller': list(bits), 'ctx': list(ctx), 'body': bi, 'answers': answers, **r})
-                        if explore:
-                            for i in range(len(answers), min(r['n_unfiltered'], depth)):
-                                queue.append(answers + [True] * (i - len(answers)) + [False])
+                variants = [None]
+                if usernames and not bits[3]:
+                    variants += list(usernames)
+                for uname in variants:
+                    caller = caller_of(bits)
+                    if uname is not None:
+                        caller['username'] = uname
+                    for bi, body in enumerate(bodies_for(path)):
+                        if uname is not None and bi > 0:
+                            continue
+                        queue = [[]]
+                        seen = 0
+                        while queue and seen < (2 ** depth if uname is None else 2):
+                            answers = queue.pop(0)
+                            seen += 1
+                            r = await run_one(handler, method, path, caller, ctx, answers, body)
+                            cases.append({'caller': list(bits), 'ctx': list(ctx), 'body': bi, 'answers': answers, **r,
+                                          **({'username': uname} if uname is not None else {})})
+                            if explore:
+                                for i in range(len(answers), min(r['n_unfiltered'], depth)):
+                                    queue.append(answers + [True] * (i - len(answers)) + [False])
         out.append({'method': method, 'path': path, 'name': name, 'static': False, 'cases': cases})
     return out
 
